@@ -9,12 +9,12 @@ def _c04_nontrivial(cf):
 
 CONFIG = dict(
     correspondence="GoImap.Framing.serve (Model/Framing.lean) vs a real imapserver.Server with the recording stub session over an in-memory connection: the sequence of tagged replies (tag + OK/NO/BAD), every continuation request with the client offset at which it was received, BYE, how the connection ended, and the stub's call log (method + arguments, hex); commands outside the model's signature table are compared up to the point where the model stops",
-    rule="command sequences (1..8 commands, every connection state, servers advertising LITERAL-, LITERAL+ or neither, pipelined or command-by-command) in which every string argument is independently an atom, a quoted string, {n} or {n+} with n in {0,1,4095,4096,4097,5000,100 MiB,100 MiB+1} or a small random size; payloads are command-like text (z LOGIN u p, x DELETE b, ...) with markers unique to the case, and CRLF-rich noise; AUTHENTICATE PLAIN exchanges (valid, cancelled, malformed, over-long lines), IDLE with DONE / other / over-long lines, spurious trailing literals, APPEND with trailing text; a faithful client sends synchronising payloads, SASL responses and DONE only after '+', and abandons a command answered with a tagged reply. Plus the replays of the findings ledger. Non-trivial = the stream contains a literal, an AUTHENTICATE exchange or IDLE; distinct = different case line",
+    rule="command sequences (1..8 commands, every connection state, servers advertising LITERAL-, LITERAL+ or neither, pipelined or command-by-command) in which every string argument is independently an atom, a quoted string, {n} or {n+} with n in {0,1,4095,4096,4097,5000,100 MiB,100 MiB+1} or a small random size; payloads are command-like text (z LOGIN u p, x DELETE b, ...) with markers unique to the case, and CRLF-rich noise; AUTHENTICATE PLAIN exchanges (valid, cancelled, malformed, over-long lines), IDLE with DONE / other / over-long lines, spurious trailing literals, APPEND with trailing text; a faithful client sends synchronising payloads, SASL responses and DONE only after '+', and abandons a command answered with a tagged reply. A sixth of the LITERAL-/LITERAL+ servers run a backend whose Append fails before reading the message (the handler must drain the literal itself). Plus the replays of the findings ledger. Non-trivial = the stream contains a literal, an AUTHENTICATE exchange or IDLE; distinct = different case line",
     nontrivial=_c04_nontrivial,
     trusted=["the in-memory connection's quiescence signal (the server's reader is blocked on an empty pipe) is what delimits 'the server's answer to what was sent so far'",
              "the stub session's rendering of its arguments"],
     assumptions=["oracle domain: command lines without bare CR/LF, whose quoted strings end on the line, that do not end in SP, with literal sizes below 2^63 (elsewhere the RFC lexer and the library's deliberately liberal lexer may frame differently; such streams are generated, compared with the model and checked for panics and whole response lines only)",
-                 "the backend (stub) succeeds in every call"],
+                 "the backend (stub) succeeds in every call, except Append on the servers marked /af, which fails without reading the message"],
     leanchecker=True,
     level_text="proof: theorems about the mirrored server (one tagged reply per RFC-framed command, no announced payload octet consumed as command text, '+' only for an accepted synchronising literal / AUTHENTICATE / IDLE) for all byte streams of the stated domain; the mirror is tied to the real server on every run and the RFC framing (Spec/Framing.lean, written from RFC 9051 section 4.3 and RFC 7888) judges every transcript of the implementation",
     level_note="Trusted: Lean kernel; harness/driver. Partial: concurrent writers (IDLE goroutine vs command goroutine) are not in the byte model. The list of proved / oracle-only clauses is at the top of lean/GoImap/Props/C04.lean.",
